@@ -70,7 +70,7 @@ def check(case, ctx):
             problems.append("fabrication_footprints[%s] lists %s, components are %s" % (cat, got, sorted(exp_f)))
     # the library's own object collections must be duplicate free
     for coll, names in (("servers", comp["servers"]), ("storages", comp["storages"]), ("networks", comp["networks"])):
-        got = sorted(o.name for o in getattr(system, coll))
+        got = sorted(S.key_of(o) for o in getattr(system, coll))
         if got != sorted(names):
             problems.append("system.%s is %s, components are %s" % (coll, got, sorted(names)))
     # hourly total
@@ -170,7 +170,7 @@ def check(case, ctx):
             aci = F.attr_q(spec, spec["objs"][up]["country"], "average_carbon_intensity")
             for j in sorted(set(S.journey_jobs(spec, spec["objs"][up]["usage_journey"]))):
                 d = objs[j].hourly_data_transferred_per_usage_pattern
-                entry = [v for k, v in d.items() if k.name == up]
+                entry = [v for k, v in d.items() if S.key_of(k) == up]
                 if entry:
                     F.add_into(exp, F.series(c(entry[0])), bei * aci)
         why = F.maps_close(F.series(c(objs[net].energy_footprint)), exp)
